@@ -94,7 +94,7 @@ theorem serW_some_ser (X : Ext) (v : Val) (s : SVal) (h : serW X v = some s) : s
   · exact h
   · cases h
 
-/-- `serialize.rs` succeeds exactly on the serializable trees nested at most 128 levels deep -/
+/-- `serialize.rs` succeeds exactly on the serializable trees nested at most 127 levels deep -/
 theorem serW_isSome (X : Ext) (v : Val) :
     (serW X v).isSome = (serializable v && decide (depth v ≤ writerDepthLimit)) := by
   unfold serW
@@ -105,7 +105,7 @@ theorem serW_too_deep_is_error (X : Ext) (v : Val) (h : writerDepthLimit < depth
   have : ¬ depth v ≤ writerDepthLimit := by omega
   simp [serW, this]
 
-/-- **de_ser**: every serializable value tree (nested at most 128 levels, the writer's limit),
+/-- **de_ser**: every serializable value tree (nested at most 127 levels, the writer's limit),
 serialized by `serialize.rs` and deserialized by `KValueVisitor`, is the documented normal form of
 the tree (lists → tuples, keys → strings). -/
 theorem de_ser (X : Ext) (v : Val) (h : serializable v = true) (hd : depth v ≤ writerDepthLimit) :
@@ -914,7 +914,7 @@ theorem serG_cycle_is_error (g : Graph) (C : Nat → Prop) (hC : ∀ i, C i → 
 /-- a list that contains itself, and a two-container cycle through a map -/
 example : serG [⟨false, [.leaf 1, .ref 0]⟩] 10 [] 0 = none := by decide
 example : serG [⟨false, [.ref 1]⟩, ⟨true, [.leaf 2, .ref 0]⟩] 10 [] 0 = none := by decide
-/-- the nesting limit applies to graphs as well: whatever the graph, nothing is serialized below 128
+/-- the nesting limit applies to graphs as well: whatever the graph, nothing is serialized below 127
 containers -/
 theorem serG_too_deep_is_error (g : Graph) (fuel : Nat) (path : List Nat) (i : Nat)
     (h : writerDepthLimit ≤ path.length) : serG g fuel path i = none := by
